@@ -257,11 +257,12 @@ def main(tier, seed):
         jobs.append((f'compressor monotone R={R}', 'monotone', dict(kind='comp', R=R), 1500))
     for wm in ('sym', 'zero'): jobs.append((f'limiter curve {wm}', 'curve', dict(kind='lim', R=1, Wmode=wm), 1500))
     jobs.append(('limiter monotone', 'monotone', dict(kind='lim', R=1), 1500))
-    for (R, W, ta, tr) in ([(5, 0.0, 0.0, 0.0), (3, 6.0, 0.0, 0.0), (5, 4.0, 0.01, 0.05), (4, 2.0, 0.0144, 0.0237)] if q else [(5, 0.0, 0.0, 0.0), (3, 6.0, 0.0, 0.0), (5, 4.0, 0.01, 0.05), (2, 0.0, 0.02, 0.0), (10, 10.0, 0.0, 0.1)]):
+    for (R, W, ta, tr) in ([(5, 0.0, 0.0, 0.0), (3, 6.0, 0.0, 0.0), (5, 4.0, 0.01, 0.05), (4, 2.0, 0.0144, 0.0237), (2, 0.0, 0.0, 0.1), (2, 3.0, 0.02, 0.0)] if q else [(5, 0.0, 0.0, 0.0), (3, 6.0, 0.0, 0.0), (5, 4.0, 0.01, 0.05), (4, 2.0, 0.0144, 0.0237), (2, 0.0, 0.02, 0.0), (10, 10.0, 0.0, 0.1), (2, 0.0, 0.0, 0.1), (2, 3.0, 0.02, 0.0), (3, 1.0, 0.004, 2.0)]):
         jobs.append((f'compressor smoothing R={R} W={W}', 'smooth', dict(kind='comp', R=R, W=W, ta=ta, tr=tr), 1500))
-    for (W, ta, tr) in [(0.0, 0.0, 0.0), (4.0, 0.0, 0.05), (2.0, 0.01, 0.02), (3.0, 0.0144, 0.0237)]: jobs.append((f'limiter smoothing W={W}', 'smooth', dict(kind='lim', R=1, W=W, ta=ta, tr=tr), 1500))
+    for (W, ta, tr) in [(0.0, 0.0, 0.0), (4.0, 0.0, 0.05), (2.0, 0.01, 0.02), (3.0, 0.0144, 0.0237), (1.0, 0.02, 0.0)]: jobs.append((f'limiter smoothing W={W}', 'smooth', dict(kind='lim', R=1, W=W, ta=ta, tr=tr), 1500))
     for th in (0.0, 0.1, 0.2): jobs.append((f'gate hold={th}', 'gate', dict(th=th, ta=0.3, tr=0.2), 1500))
     jobs.append(('gate fractional-sample times', 'gate', dict(th=0.1, ta=0.144, tr=0.237), 1500)); jobs.append(('gate sub-sample times', 'gate', dict(th=0.0, ta=0.05, tr=0.07), 1500))
+    jobs.append(('gate zero attack', 'gate', dict(th=0.1, ta=0.0, tr=0.2), 1500)); jobs.append(('gate zero release', 'gate', dict(th=0.0, ta=0.3, tr=0.0), 1500))
     jobs.append(('agc clamp', 'agc', dict(n=3 if q else 4), 1500))
     return run_property(PID, tier, HARNESS, jobs, JOBFNS,
         level_text='The gain computers of Compressor and Limiter run with threshold, knee width and the input sample symbolic (integer ratio enumerated; the level 20*log10(|x|+eps) is an uninterpreted function value, i.e. an '
